@@ -138,6 +138,10 @@ def make_series(rng, dt, pat):
         vals = [rng.choice([rand_str, rand_int, rand_frac_float])(rng) for _ in range(n)]
     else:
         vals = [rng.random() < 0.5 for _ in range(n)]
+    if rng.random() < 0.2 and dt in ('int', 'float_whole', 'bool', 'object', 'str'):
+        # every present value is falsy (0, 0.0, -0.0, False, ''): truthiness must not stand in for presence
+        falsy = {'int': [0], 'float_whole': [0.0, -0.0], 'bool': [False], 'object': [''], 'str': ['']}[dt]
+        vals = [rng.choice(falsy) for _ in range(n)]
     nullv = None if (dt in ('object', 'object_mixed') and rng.random() < 0.5) else np.nan
     if pat == 'all':
         vals = [nullv] * n
